@@ -148,6 +148,10 @@ impl Interpreter {
         // That feels like overkill so for now we're just doing this.
         match first_word.to_ascii_uppercase().as_str() {
             "RUN" => {
+                // A reply that was provided but not consumed (because the host
+                // broke in before the INPUT statement was resumed) must not be
+                // fed to the first INPUT of the new run.
+                self.input = None;
                 self.variables = Variables::default();
                 self.arrays = Arrays::default();
                 self.program.run_from_first_numbered_line();
